@@ -528,6 +528,18 @@ class AbsBytes:
     def __hash__(self):
         return 0x5c
 
+    def startswith(self, o):
+        o2 = AbsBytes.lift(o)
+        if o2 is None:
+            raise TypeError("startswith first arg must be bytes")
+        pre = z3.Function("BYTES_PREFIX", BYTES, BYTES, z3.BoolSort())     # "o is a prefix of self", uninterpreted
+        c = AbsBytes._reg()
+        c.add_fact(z3.Implies(pre(self.t, o2.t), LEN(o2.t) <= LEN(self.t)))
+        for (a2, b2, t2) in getattr(c, "abs_cats", []):
+            if t2.eq(self.t):
+                c.add_fact(z3.Implies(a2 == o2.t, pre(self.t, o2.t)))
+        return SymBool(pre(self.t, o2.t))
+
     def __lt__(self, o):
         o2 = AbsBytes.lift(o)
         if o2 is None:
